@@ -82,7 +82,7 @@ pub(crate) mod spec {
 
 fn key_encpb(t: &[&str]) -> Option<String> {
     let [ty, data] = t else { return None };
-    let m = crate::crypto::keys_proto::PublicKey { r#type: spec::int(ty)?, data: spec::b(data)? };
+    let m = crate::crypto::keys_proto::PublicKey { r#type: spec::int(ty)?, data: spec::b(data)?, ..Default::default() };
     let bytes = m.encode_to_vec();
     Some(format!("ok {} ==> {}", crate::verif::hexd(&bytes), key_pb(&bytes)))
 }
